@@ -39,7 +39,7 @@ def gen(seed, tier):
         if rng.random() < 0.3:
             # any callable will do: a partial, a bound method, a callable instance, a plain callable
             # handing back the coroutine
-            payloads[-1]["callable"] = rng.choice(["partial", "partial-args", "method", "instance", "unhashable-instance"] + (["lambda"] if target != "threading" else []))
+            payloads[-1]["callable"] = rng.choice(["partial", "partial-args", "method", "instance", "unhashable-instance", "module-none"] + (["lambda"] if target != "threading" else []))
         ctx = rng.choice(["driver", "driver", "thread-payload", "coroutine-payload"])
         if ctx == "coroutine-payload" and (co_flavour is None or co_flavour == target):
             ctx = "driver"
